@@ -50,6 +50,19 @@ package batchresource
 //@   requires extension.rangesOK() && extension.DefaultPriorityClass == extension.PriorityNone
 // koordlet reports non-negative pod usage
 //@   requires forall pm *slov1alpha1.PodMetricInfo, n corev1.ResourceName :: {val(pm.PodUsage.ResourceList, n)} val(pm.PodUsage.ResourceList, n) >= 0
+// After the loops: the dangling high-priority usage (metrics of pods no longer listed, loop 3) is ADDED to both the used and the
+// max(used, request) accumulator, and these are what the policy formula receives. Sums are not expressible, so this is pinned at
+// the call sites (ordinals follow the engine's execution order: Add#1 / Add#2 are the two additions after loop 3):
+//@   assert before call Add#1: $arg0 == podsHPUsed && $arg1 == podsDanglingUsed
+//@   assert before call Add#2: $arg0 == podsHPMaxUsedReq && $arg1 == podsDanglingUsed && podsHPUsed == lastresult("Add")
+//@   assert before call GetNodeCapacity: podsHPMaxUsedReq == lastresult("Add")
+//@   assert before call CalculateBatchResourceByPolicy: $arg5 == podsHPRequest && $arg6 == podsHPUsed && $arg7 == podsHPMaxUsedReq
+// value level: the max(used, request) figure handed over covers the request sum plus the dangling usage (it would not if the
+// dangling usage were merged by a maximum instead of being added)
+//@   assert before call GetHostAppHPUsed: forall n corev1.ResourceName :: {val(podsHPMaxUsedReq, n)} val(podsHPMaxUsedReq, n) >= val(podsHPRequest, n)
+//@   assert before call Add#2: forall n corev1.ResourceName :: {val($arg0, n)} val($arg0, n) >= val(podsHPRequest, n)
+//@   assert before call GetNodeCapacity: forall n corev1.ResourceName :: {val(podsHPMaxUsedReq, n)} val(podsHPMaxUsedReq, n) >= val(podsHPRequest, n) + val(podsDanglingUsed, n)
+//@   assert before call CalculateBatchResourceByPolicy: forall n corev1.ResourceName :: {val($arg7, n)} val($arg7, n) >= val($arg5, n) + val(podsDanglingUsed, n)
 //@   loop 2 invariant #distinct: podMetricMap != nil && podMetricDanglingMap != nil && podMetricMap != podMetricDanglingMap
 //@   loop 2 invariant #dominance: forall n corev1.ResourceName :: val(podsHPMaxUsedReq, n) >= val(podsHPRequest, n)
 //@   loop 2 invariant #nometrics: (forall k string :: {has(podMetricMap, k)} !has(podMetricMap, k)) ==> (forall n corev1.ResourceName :: val(podsHPUsed, n) == val(podsHPRequest, n) && val(podsHPMaxUsedReq, n) == val(podsHPRequest, n))
